@@ -49,7 +49,9 @@ def generate(rng, tier):
     if not flat and rng.random() < 0.4:
         nested = scen.subroots_of(tree, rng, 2)
         for sub in nested:
-            ops.append(scen.cmd("create", scen.root_arg(sub), *gen.fmt_args(gen.pick_formats(rng, 1, 2))))
+            # the same effective patterns in every generation of every history (the statement's "identical to what
+            # every generation recorded")
+            ops.append(scen.cmd("create", scen.root_arg(sub), *gen.fmt_args(gen.pick_formats(rng, 1, 2)), *pat_args))
     n = rng.randint(1, 4)
     common = None
     any_dh = False
